@@ -620,8 +620,8 @@ def classify(minimal):
     """canonical key of a minimal history that is an instance of one of the three defects confirmed while building the check
     (the witnesses below replay one fixed instance of each on every run)"""
     names = [s[0] for s in minimal if s[0] not in ('end', 'commit')]
-    if names and all(n.startswith('db_insert') for n in names) and 'db_insert_ret' in names:
-        return 'db-insert-cache:returning-concatenated-with-columns'
+    if 'db_insert_ret' in names and any(n in ('db_insert', 'db_insert_b', 'db_insert_s_b') for n in names):
+        return 'db-insert-cache:returning-concatenated-with-columns'   # every step of a minimal history is needed: the two statements share a key
     if names and all(n == 'q_fcall' for n in names) and any(s[1] == ['@fn', 'count'] for s in minimal if s[0] == 'q_fcall'):
         return 'extractors-cache:call-name-classified-once-per-code-object'
     if 'objflush' in names and 'set_hook' in names:
@@ -653,6 +653,68 @@ def random_histories(ctx):
             if found <= 6: report_difference(ctx, hist, (i, w[i], c[i]), 'random history #%d (seed %d)' % (h, ctx.seed))
     ctx.count('histories', n_hist)
     flush_protocol(ctx)
+
+
+POOL = {'int': [1, 3, -1], 'none': [None], 'str': ['ab', 'b%'], 'date': [['@date', 2020, 1, 1], ['@date', 2021, 1, 1]], 'bool': [True], 'float': [1.5],
+        'tuple': [['@tuple'], ['@tuple', 1], ['@tuple', 1, 3]], 'list': [['@list', 1], ['@list', 0, 3]], 'strtuple': [['@tuple', 'a']],
+        'obj': [['@obj', 'G', 1], ['@obj', 'G', 2]], 'pobj': [['@obj', 'P', 1]]}
+SPECIALS = [
+    [['q_getattr', 'a'], ['q_getattr', 'b'], ['q_getattr', 's'], ['q_getattr', 'nope']],
+    [['q_iter', ['@ent', 'P']], ['q_iter', ['@ent', 'G']], ['q_iter', ['@ent', 'T']], ['q_iter', ['@list', 1, 2]]],
+    [['q_fcall', ['@fn', 'len'], ['@list', 1, 2]], ['q_fcall', ['@fn', 'max'], ['@list', 1, 2]], ['q_fcall', ['@fn', 'len'], ['@list', 1, 2, 3]], ['q_fcall', ['@fn', 'count'], ['@list', 1, 2]]],
+    [['q_page', 0, 1, 2], ['q_page', 0, 2, 2], ['q_page', 1, 1, 3], ['q_page', 0, 1, 1]],
+    [['q_limit', 0, 1, 1], ['q_limit', 0, None, 1], ['q_limit', 0, 2, None], ['q_limit', 0, 0, 0], ['q_limit', 1, 3, 2]],
+    [['q_slice', 0, 2], ['q_slice', 1, 2], ['q_slice', 1, None], ['q_slice', None, -1], ['q_slice', -2, None], ['q_slice', 0, 1]],
+    [['q_slice1', 0], ['q_slice1', 2], ['q_slice1', None], ['q_slice1', -1]], [['q_slice2', 0], ['q_slice2', 2], ['q_slice2', None], ['q_slice2', -1]],
+    [['q_subq', 0], ['q_subq', 1], ['q_from', 0, 5], ['q_from', 1, 3]],
+    [['lazy', 2], ['load_lz', 2], ['load', 2], ['pk', 2], ['lazy', 3]],
+    [['coll', 1], ['coll', 2], ['tags', 2], ['tps', 2], ['contains', 1, 1], ['contains', 1, 4]],
+]
+MODS = [['create', 7, None, 'n1', 1], ['create', 1, 2, 'abz', 0], ['create_tag', 3, 2], ['set', 1, 'a', 5], ['set', 2, 'b', None], ['set', 3, 'b', 4], ['set', 2, 's', 'abq'],
+        ['set', 2, 'lz', 'LZ'], ['set', 2, 'd', None], ['set_g', 2, 0], ['set_g', 4, 1], ['delete', 2], ['delete', 5], ['tag_add', 3, 2], ['tag_remove', 2, 1],
+        ['bulk_delete', 3], ['delete_q', 1], ['read_b_set_a', 1, 5], ['read_b_set_a', 2, 5], ['read_ab_set_s', 4, 'r1'], ['db_insert', 4]]
+
+def pair_corpus(ctx):
+    """systematic part of the oracle: every query code object with every ordered pair of argument tuples from small pools (values AND types),
+    and every query before / after every kind of in-session modification (unflushed, flushed by the query's own auto-flush, committed)"""
+    rng = ctx.rng
+    hists = []
+    per_spec = ctx.scale(8, 40)
+    for name, kinds, w in QSPEC:
+        pools = []
+        for ks in kinds:
+            vals = []
+            for k in dict.fromkeys(ks): vals += POOL[k]
+            pools.append(vals[:7])
+        tuples = [list(t) for t in itertools.product(*pools)] if pools else [[]]
+        pairs = [(a, b) for a in tuples for b in tuples if a != b]
+        rng.shuffle(pairs)
+        for a, b in pairs[:per_spec]:
+            hists.append([[name] + a, [name] + b, [name] + a, ['end']])
+        for m in (MODS if ctx.thorough else rng.sample(MODS, 5)):
+            a = rng.choice(tuples)
+            h = [[name] + a, list(m)] + ([['commit']] if m[0].startswith('db_insert') else []) + [[name] + a, ['commit'], [name] + a, ['end']]
+            hists.append(h)
+    for group in SPECIALS:
+        for a, b in itertools.permutations(group, 2):
+            hists.append([list(a), list(b), list(a), ['end']])
+        for a in group:
+            for m in (MODS if ctx.thorough else rng.sample(MODS, 4)):
+                hists.append([list(a), list(m)] + ([['commit']] if m[0].startswith('db_insert') else []) + [list(a), ['end_rollback'], list(a), ['end']])
+    found = 0
+    for h in hists:
+        ctx.case({'history': h}, kind='oracle:pair-corpus')
+        w, iw = run_history(h, cold=False)
+        c, ic = run_history(h, cold=True)
+        check_functionality(ctx, ic, h)
+        for d_ in iw.dicts:
+            hits = sum(1 for e in d_.log if e[0] == 'get' and e[2])
+            if hits: ctx.count('hits:' + d_.name.split(':')[0], hits)
+        if w != c:
+            found += 1
+            i = next(i for i, (x, y) in enumerate(zip(w, c)) if x != y)
+            if found <= 6: report_difference(ctx, h, (i, w[i], c[i]), 'pair corpus')
+    ctx.count('pair-corpus-histories', len(hists))
 
 
 # ------------------------------------------------------------------------------------------------ ties
@@ -797,7 +859,10 @@ def build_r():
     class R(db.Entity):
         a = Required(int, unique=True)
         def before_insert(self):
-            for k in state['hooks'].get(self.a, ()): state['log'].append(('hookq', k, r_query(state, k)))
+            vp = state.get('visible_pending'); state['visible_pending'] = ()     # inside a hook nothing is flushed: the database rows are the truth
+            try:
+                for k in state['hooks'].get(self.a, ()): state['log'].append(('hookq', k, r_query(state, k) + ['hook']))
+            finally: state['visible_pending'] = vp
     db.bind('sqlite', ':memory:'); db.generate_mapping(create_tables=True)
     state['R'] = R
     return state
@@ -818,7 +883,8 @@ def r_query(state, k):
     qr = db._get_cache().query_results
     evs = [e for e in qr.log[n0:] if e[0] == 'get'] if isinstance(qr, RecDict) and qr is cache.query_results else []
     hit = bool(evs and evs[-1][2])
-    rows = sorted(r[0] for r in db.get_connection().execute('select a from R'))
+    rows = sorted(set(r[0] for r in db.get_connection().execute('select a from R')) | set(state.get('visible_pending', ())))
+    rows = [x for x in rows if x > -1 - (k // 3)]
     truth = rows if kind == 0 else len(rows) if kind == 1 else sum(rows)
     return [ans, hit, truth]
 
@@ -859,9 +925,12 @@ def results_tie(ctx):
                     if st[0] == 'create':
                         state['hooks'][st[1]] = st[2]; R(a=st[1]); pending.append((st[1], st[2])); model_ops.append({'t': 'modify', 'c': st[1]})
                     elif st[0] == 'query':
+                        pending_before = list(pending)
                         hooks_then('query'); pending[:] = []
                         model_ops.append({'t': 'query', 'k': st[1], 'cacheable': True})
+                        state['visible_pending'] = [c for c, _ in pending_before]
                         r = r_query(state, st[1]); real += [x[2] for x in state['log']] + [r]
+                        state['visible_pending'] = ()
                     elif st[0] == 'flush':
                         hooks_then('flush'); pending[:] = []; model_ops.append({'t': 'flush'}); flush(); real += [x[2] for x in state['log']]
                     elif st[0] == 'commit':
@@ -884,11 +953,14 @@ def results_tie(ctx):
         ctx.case(['results', script], kind='tie:result-cache')
         # the oracle on the real code: every answer equals the raw SELECT on the same connection
         qsteps = [o for o in model_ops if o['t'] == 'query']
-        for (ans, hit, truth), mo in zip(real, qsteps):
+        for rr, mo in zip(real, qsteps):
+            ans, hit, truth = rr[:3]
             ctx.count('results:hit' if hit else 'results:computed')
             if ans != truth:
+                in_hook_after_objflush = len(rr) > 3 and any(s[0] == 'objflush' for s in script)
                 ctx.violation('a query answered from the per-session result cache although the database state of the transaction had changed',
-                              {'script': script, 'query': mo['k']}, observed=ans, expected=truth, key='result-cache:entity-flush-does-not-clear' if any(s[0] == 'objflush' for s in script) else 'result-cache:stale:' + json.dumps(script))
+                              {'script': script, 'query': mo['k'], 'inside_hook': len(rr) > 3}, observed=ans, expected=truth,
+                              key='result-cache:entity-flush-does-not-clear' if in_hook_after_objflush else 'result-cache:stale:' + json.dumps(script))
         batch.append(({'op': 'results', 'clears': clears, 'warm': True, 'hist': model_ops}, script, model_ops, real))
     if ctx.driver.ok and batch:
         outs = ctx.driver('C05', [b[0] for b in batch])
@@ -958,6 +1030,7 @@ def run(ctx):
     witnesses(ctx)
     translator_tie(ctx)
     results_tie(ctx)
+    pair_corpus(ctx)
     random_histories(ctx)
 
 
